@@ -18,6 +18,7 @@ from kawin.precipitation.KWNBase import PrecipitateBase
 from kawin.precipitation.PopulationBalance import PopulationBalanceModel as PBM
 from kawin.precipitation.PrecipitationParameters import PrecipitationData, Constraints
 from harness import c07 as _c07
+from harness import c01 as _c01
 
 
 class MultiStub:
@@ -283,6 +284,9 @@ HARNESSES = [
     Harness("C03.transport_any_radius", _c07.nuc_class, functions=[PBM.getdXdtEuler, PBM.correctdXdtEuler],
             assumptions=["as C07.nuc_class: the nucleation radius is unconstrained (inside, below or above the grid); no internal error on any path"],
             params={"quick": [{"n": 2}], "thorough": [{"n": 3}]}),
+    Harness("C03.composition_clamp", _c01.mass_balance, functions=[PrecipitateModel._calcMassBalance],
+            assumptions=["as C01.mass_balance: the recorded matrix composition is the balanced one, or the minimum composition when the balance is negative"],
+            params={"quick": [{"nph": 1, "nel": 2, "ncls": 2, "infinite": True}], "thorough": [{"nph": 2, "nel": 2, "ncls": 2, "infinite": True}]}),
     Harness("C03.faults_binary", faults_binary, functions=_F, assumptions=_A,
             stubs=["therm.getInterfacialComposition: sentinel -1 for the first k class boundaries, positive symbolic values above; planar query may return None or -1",
                    "therm.getInterdiffusivity: fresh symbolic value"],
